@@ -27,10 +27,15 @@ type Params struct {
 	FailAt  int      `json:"fail_at,omitempty"` // 1-based position at which the underlying iterator fails (0 = never)
 	Scripts []string `json:"scripts"`           // one per consumer, letters N(ext) H(ead) S(top)
 	API     string   `json:"api"`               // read | userset | startingwithuser
+	Cancel  int      `json:"cancel,omitempty"`  // 1-based consumer whose request context another thread cancels at an arbitrary point
 }
 
 func (p Params) String() string {
-	return fmt.Sprintf("%s items=%d failAt=%d scripts=%v", p.API, p.Items, p.FailAt, p.Scripts)
+	c := ""
+	if p.Cancel > 0 {
+		c = fmt.Sprintf(" cancel=consumer%d", p.Cancel-1)
+	}
+	return fmt.Sprintf("%s items=%d failAt=%d scripts=%v%s", p.API, p.Items, p.FailAt, p.Scripts, c)
 }
 
 var errBoom = errors.New("boom")
@@ -74,14 +79,25 @@ func (it *stubIter) cur() (*openfgav1.Tuple, error) {
 	}
 	return it.r.items[it.pos], nil
 }
-func (it *stubIter) Next(context.Context) (*openfgav1.Tuple, error) {
+func (it *stubIter) Next(ctx context.Context) (*openfgav1.Tuple, error) {
+	// a real datastore iterator honours the context it is called with
+	vrt.Point("inner-next")
+	if err := ctx.Err(); err != nil {
+		return nil, err
+	}
 	t, err := it.cur()
 	if err == nil {
 		it.pos++
 	}
 	return t, err
 }
-func (it *stubIter) Head(context.Context) (*openfgav1.Tuple, error) { return it.cur() }
+func (it *stubIter) Head(ctx context.Context) (*openfgav1.Tuple, error) {
+	vrt.Point("inner-head")
+	if err := ctx.Err(); err != nil {
+		return nil, err
+	}
+	return it.cur()
+}
 func (it *stubIter) Stop() {
 	if !it.stopped {
 		it.stopped = true
@@ -112,6 +128,11 @@ func scenario(p Params) e1.Scenario {
 			for ci, script := range p.Scripts {
 				wg.Go(func() {
 					ctx := context.Background()
+					if p.Cancel == ci+1 {
+						c, cancel := context.WithCancel(ctx)
+						ctx = c
+						wg.Go(func() { vrt.Point("cancel-request-context"); cancel() })
+					}
 					var it storage.TupleIterator
 					var err error
 					switch p.API {
@@ -202,7 +223,13 @@ func scenario(p Params) e1.Scenario {
 					case pos < p.Items:
 						want = fmt.Sprintf("doc:%d", pos+1)
 					}
+					if p.Cancel == ci+1 && o.Val == "err" {
+						break // the cancelled consumer may fail from the cancellation on
+					}
 					if o.Val != want {
+						if p.Cancel > 0 && o.Val == "err" {
+							return "shared-iterator-cancellation-of-one-consumer-fails-another", desc(fmt.Sprintf("consumer %d (own context healthy) got an error at position %d after consumer %d's context was cancelled", ci, pos, p.Cancel-1)), outcome, key
+						}
 						return "shared-iterator-wrong-element", desc(fmt.Sprintf("consumer %d (script %s) observed %s where the underlying sequence has %s at position %d", ci, script, o.Val, want, pos)), outcome, key
 					}
 					if o.Op == "N" && o.Val != "done" && o.Val != "err" {
@@ -233,6 +260,8 @@ func Scenarios(thorough bool) []e1.Scenario {
 		Params{Items: 2, FailAt: 1, Scripts: []string{"NN", "NS"}, API: "read"},
 		Params{Items: 2, Scripts: []string{"NNN", "NNN"}, API: "userset"},
 		Params{Items: 2, Scripts: []string{"NNN", "HS"}, API: "startingwithuser"},
+		Params{Items: 3, Scripts: []string{"NNNN", "NNNN"}, API: "read", Cancel: 1},
+		Params{Items: 3, Scripts: []string{"HNNN", "NNNN"}, API: "userset", Cancel: 2},
 	)
 	if thorough {
 		ps = append(ps,
@@ -240,6 +269,8 @@ func Scenarios(thorough bool) []e1.Scenario {
 			Params{Items: 3, Scripts: []string{"NS", "HNN", "NNNN"}, API: "read"},
 			Params{Items: 3, FailAt: 3, Scripts: []string{"NNNN", "NNS", "HNNN"}, API: "read"},
 			Params{Items: 20, Scripts: []string{strings.Repeat("N", 21), strings.Repeat("N", 21)}, API: "read"},
+			Params{Items: 3, Scripts: []string{"NNNN", "NNNN", "NNNN"}, API: "read", Cancel: 2},
+			Params{Items: 12, Scripts: []string{strings.Repeat("N", 13), strings.Repeat("N", 13)}, API: "startingwithuser", Cancel: 1},
 		)
 	} else {
 		ps = append(ps, Params{Items: 18, Scripts: []string{strings.Repeat("N", 19), strings.Repeat("N", 10) + "S"}, API: "read"})
